@@ -16,6 +16,7 @@
 #include <unistd.h>
 
 #include "common/docworld.hpp"
+#include "common/inspector.hpp"
 
 using namespace dw;
 
@@ -233,14 +234,66 @@ static size_t totalNodes(const mj::Value& v) {
   return n;
 }
 
+// maps addresses of pool lists / string pools / resource managers to small ids: the documents
+// of the world are 1..nd, any other JsonDocument (a temporary) gets an id >= 100
+struct AddrMap {
+  struct Range { const char* lo; const char* hi; long id; };
+  std::vector<Range> ranges;
+  long nextTemp = 100;
+  void reset(World& w) {
+    ranges.clear();
+    for (int d = 1; d <= w.nd; d++) {
+      const char* p = reinterpret_cast<const char*>(&w.doc(d));
+      ranges.push_back({p, p + sizeof(JsonDocument), d});
+    }
+  }
+  long id(const void* q) {
+    const char* p = reinterpret_cast<const char*>(q);
+    for (auto& r : ranges) if (p >= r.lo && p < r.hi) return r.id;
+    // a temporary document: any address within sizeof(JsonDocument) of this one is the same object
+    ranges.push_back({p - sizeof(JsonDocument), p + sizeof(JsonDocument), nextTemp});
+    return nextTemp++;
+  }
+};
+
 int main(int argc, char** argv) {
-  if (argc < 4) { fprintf(stderr, "usage: doc_record out seed events [ndocs nrefs]\n"); return 2; }
+  if (argc < 4) { fprintf(stderr, "usage: doc_record out seed events [ndocs nrefs] [--events]\n"); return 2; }
   signal(SIGSEGV, onSignal);
   signal(SIGABRT, onSignal);
   std::ofstream out(argv[1]);
   unsigned long long seed = strtoull(argv[2], nullptr, 10);
   long events = atol(argv[3]);
-  int nd = argc > 4 ? atoi(argv[4]) : 2, nr = argc > 5 ? atoi(argv[5]) : 3;
+  bool withEvents = false;
+  std::vector<const char*> pos;
+  for (int k = 4; k < argc; k++) {
+    if (std::string(argv[k]) == "--events") withEvents = true;
+    else pos.push_back(argv[k]);
+  }
+  int nd = pos.size() > 0 ? atoi(pos[0]) : 2, nr = pos.size() > 1 ? atoi(pos[1]) : 3;
+  AddrMap amap;
+  std::map<unsigned long, long> nodeIds;
+  long hookLines = 0;
+  if (withEvents) {
+    verifHookSink() = [&](const VerifHookEvent& e) {
+      long a = (long)e.a, b = (long)e.b;
+      if (e.kind == EV_POOLS_SWAP || e.kind == EV_POOLS_MOVE || e.kind == EV_STR_SWAP)
+        a = amap.id(reinterpret_cast<const void*>(e.a));
+      if (e.kind == EV_STR_ADD || e.kind == EV_STR_HIT || e.kind == EV_STR_DEREF || e.kind == EV_STR_BUILDER_HIT) {
+        auto it = nodeIds.find(e.a);
+        if (e.kind == EV_STR_ADD || it == nodeIds.end()) {
+          static long nodeCounter = 0;
+          long nid = ++nodeCounter;
+          if (e.kind == EV_STR_ADD) nodeIds[e.a] = nid, a = nid;
+          else a = -1;  // a node nobody announced
+        } else
+          a = it->second;
+        if (e.kind == EV_STR_DEREF && b == 0) nodeIds.erase(e.a);
+        if (e.kind == EV_STR_ADD) b = (long)e.b;
+      }
+      out << "{\"e\":\"h\",\"k\":" << e.kind << ",\"L\":" << amap.id(e.self) << ",\"a\":" << a << ",\"b\":" << b << "}\n";
+      hookLines++;
+    };
+  }
   long written = 0, opsDone = 0;
   unsigned long long round = 0;
   while (written < events) {
@@ -253,13 +306,33 @@ int main(int argc, char** argv) {
       ev.set("e", mj::Value::mkStr("reset"));
       ev.set("nd", mj::Value::mkInt(nd));
       ev.set("nr", mj::Value::mkInt(nr));
+      if (withEvents) {
+        amap.reset(w);
+        nodeIds.clear();
+        mj::Value geo = mj::Value::mkObj();
+        geo.set("cap", mj::Value::mkInt(ARDUINOJSON_POOL_CAPACITY));
+        geo.set("init", mj::Value::mkInt(ARDUINOJSON_INITIAL_POOL_COUNT));
+        bool small = ARDUINOJSON_SLOT_ID_SIZE <= 2;
+        geo.set("null", mj::Value::mkInt(small ? (long long)ArduinoJsonVerifInspector::nullSlot() : -1));
+        geo.set("maxp", mj::Value::mkInt(small ? (long long)ArduinoJsonVerifInspector::maxPools() : -1));
+        ev.set("geo", geo);
+      }
       out << mj::dump(ev) << "\n";
       written++;
+    }
+    if (withEvents) {
+      for (auto& a : w.allocs)
+        a->sink = [&](const AllocEvent& e) {
+          out << "{\"e\":\"m\",\"k\":\"" << e.kind << "\",\"al\":" << e.alloc << ",\"b\":" << e.blk << ",\"b2\":" << e.blk2
+              << ",\"n\":" << (long)e.size << ",\"ok\":" << (e.ok ? "true" : "false") << "}\n";
+          hookLines++;
+        };
     }
     int len = 20 + (int)gen.g.next(120);
     for (int k = 0; k < len && written < events; k++) {
       g_line = written;
       Op o = gen.make();
+      if (withEvents) out << "{\"e\":\"begin\"}\n";
       std::string ret = exec(w, o, ks);
       gen.after(o, w);
       opsDone++;
@@ -275,11 +348,27 @@ int main(int argc, char** argv) {
       ev.set("op", opJson(o));
       ev.set("ret", mj::Value::mkStr(ret));
       ev.set("obs", obs);
+      if (withEvents) {
+        mj::Value snaps = mj::Value::mkArr();
+        for (int d = 1; d <= nd; d++)
+          snaps.a.push_back(ArduinoJsonVerifInspector::toJson(ArduinoJsonVerifInspector::snapshot(w.doc(d))));
+        ev.set("snap", snaps);
+        mj::Value owners = mj::Value::mkArr();
+        for (int d = 1; d <= nd; d++) {
+          long id = 0;
+          for (auto& a : w.allocs) if (w.doc(d).allocator() == a.get()) id = a->id();
+          owners.a.push_back(mj::Value::mkInt(id));
+        }
+        ev.set("al", owners);
+      }
       out << mj::dump(ev) << "\n";
       written++;
       if (nodes > 60) break;  // keep observations small: start a fresh world
     }
+    if (withEvents) out << "{\"e\":\"begin\"}\n";
     w.docs.clear();
+    if (withEvents) out << "{\"e\":\"destroy\"}\n";
+    for (auto& a : w.allocs) a->sink = nullptr;
     for (auto& a : w.allocs)
       if (a->liveBlocks() != 0 || !a->errors().empty()) {
         printf("LEDGER idx=%ld allocator %d: %zu blocks live after destruction%s\n", written, a->id(), a->liveBlocks(),
@@ -287,6 +376,7 @@ int main(int argc, char** argv) {
         return 1;
       }
   }
-  printf("SUMMARY events=%ld ops=%ld rounds=%llu\n", written, opsDone, round);
+  verifHookSink() = nullptr;
+  printf("SUMMARY events=%ld ops=%ld rounds=%llu hook_events=%ld\n", written, opsDone, round, hookLines);
   return 0;
 }
